@@ -2,7 +2,7 @@
    `exact`, so it is checked to be convertible with it); proofs in RcP.v (strong side) and RcWeakP.v (weak side) *)
 From Coq Require Import ZArith List Bool Lia Arith.
 Import ListNotations.
-Require Import Params StateW DisposeW ModularW RcSnapCheck RcSnapP RcSnapInvP RcWSnapInvP Rc RcSpec RcP RcWeakP RcRunOkEx.
+Require Import RcPinnedP Params StateW DisposeW ModularW RcSnapCheck RcSnapP RcSnapInvP RcWSnapInvP Rc RcSpec RcP RcWeakP RcRunOkEx.
 Local Open Scope Z_scope.
 
 Theorem C01_strong_owner_keeps_alive :
@@ -78,3 +78,17 @@ Theorem C01_final_hypotheses_satisfiable :
   run_ok ex_s0 (ex_sched 20 9).
 Proof. exact RcRunOkEx.ex_run_ok. Qed.
 Print Assumptions C01_final_hypotheses_satisfiable.
+
+(* ---- H2 only where the model lacks the pin (RcPinnedP.v): the run hypothesis `pinned` (epochs carried by frames are within one
+   of the global epoch) is DERIVED for every thread that is inside a critical section - the epoch was read after the pin and the
+   section holds the clock - and remains an assumption (`pinned_out`, run_ok') only for threads outside one: deferred functions
+   run by an unpinned collector and guard-less operations, where the real code pins internally and the model does not *)
+Theorem C01_final_H2_outside_sections_only :
+  forall (s0 : state) (sched : list (nat * list Z)),
+       run_ok' s0 sched ->
+       let s := RcDepthP.mrun s0 sched in
+       forall (o : nat) (ob : obj),
+       geto s o = Some ob ->
+       0 < owners s o -> dropped ob = false /\ freed ob = false /\ destructed (word ob) = false.
+Proof. exact RcPinnedP.C01_final'. Qed.
+Print Assumptions C01_final_H2_outside_sections_only.
